@@ -12,7 +12,33 @@ args = [a for a in sys.argv[1:] if not a.startswith("--")]
 if "--tier" in sys.argv:
     tier = sys.argv[sys.argv.index("--tier") + 1]
     args = [a for a in args if a != tier]
+if "--part" in sys.argv:
+    args = [a for a in args if a != sys.argv[sys.argv.index("--part") + 1]]
 ids = args or sorted(os.path.basename(d) for d in glob.glob("/verif/seeded/C*-*"))
+# --part i/k : every k-th seed starting at i (several parts can run next to each other); rows go to seeded/.matrix_part_<i>.json,
+# --merge writes seeded/MATRIX.md from the parts
+part = None
+if "--part" in sys.argv:
+    part = sys.argv[sys.argv.index("--part") + 1]
+    ids = [a for a in ids if a != part]
+    i_, k_ = (int(x) for x in part.split("/"))
+    ids = ids[i_::k_]
+
+
+def write_matrix(rows):
+    with open("/verif/seeded/MATRIX.md", "w") as f:
+        f.write(f"# Seeded changes vs the check of the property they break (tier {tier})\n\nRows with another property's check are cross-detections (the change's mechanism also belongs to that property).\n\n| seeded change | check | result | first witness |\n|---|---|---|---|\n")
+        for r in sorted(rows, key=lambda r_: (r_[0][:3], r_[0][4:5], len(r_[0]), r_[0], r_[1] != r_[0][:3], r_[1])):
+            f.write("| " + " | ".join(str(x).replace("|", "/") for x in r) + " |\n")
+
+
+if "--merge" in sys.argv:
+    rows = []
+    for fn in sorted(glob.glob("/verif/seeded/.matrix_part_*.json")):
+        rows += [tuple(r) for r in json.load(open(fn))]
+    write_matrix(rows)
+    print("merged", len(rows), "rows;", sum(1 for r in rows if not str(r[2]).startswith("CAUGHT") and r[1] == r[0][:3]), "own-check rows not CAUGHT")
+    sys.exit(0)
 # changes whose mechanism belongs (also) to another property's check
 EXTRA = {"C01-H": ["C03"], "C03-G": ["C16"], "C06-H": ["C05"], "C08-G": ["C16"], "C16-H": ["C04"], "C08-F": ["C12"], "C05-F": ["C09"], "C01-F": ["C09"], "C02-D": ["C17"], "C14-D": ["C03"], "C08-C": ["C10"], "C08-D": ["C14"], "C04-C": ["C09"], "C07-D": ["C03", "C18"], "C06-D": ["C05"], "C01-K": ["C16"], "C01-L": ["C03"], "C02-L": ["C09"], "C17-J": ["C02", "C15"], "C01-M": ["C04"], "C01-N": ["C12"], "C07-M": ["C18"], "C09-M": ["C18"], "C15-K": ["C16"], "C15-M": ["C18"], "C15-N": ["C14"], "C08-M": ["C15", "C19"], "C17-N": ["C18"]}
 WT, VC = f"/tmp/sm_repo_{os.getpid()}", f"/tmp/sm_verif_{os.getpid()}"
@@ -64,8 +90,7 @@ try:
 finally:
     sh(["git", "-C", "/repo", "worktree", "remove", "--force", WT])
     shutil.rmtree(VC, ignore_errors=True)
-if not args and SRC == "/verif":
-    with open("/verif/seeded/MATRIX.md", "w") as f:
-        f.write(f"# Seeded changes vs the check of the property they break (tier {tier})\n\nRows with another property's check are cross-detections (the change's mechanism also belongs to that property).\n\n| seeded change | check | result | first witness |\n|---|---|---|---|\n")
-        for r in rows:
-            f.write("| " + " | ".join(str(x).replace("|", "/") for x in r) + " |\n")
+if part is not None and SRC == "/verif":
+    json.dump(rows, open(f"/verif/seeded/.matrix_part_{part.split('/')[0]}.json", "w"))
+elif not args and SRC == "/verif":
+    write_matrix(rows)
